@@ -107,6 +107,23 @@ func (c11) RunCase(c *fw.Ctx, rng *fw.RNG, batch, i int) {
 	lsys := cidlink.DefaultLinkSystem()
 	lsys.SetReadStorage(ms)
 	lsys.SetWriteStorage(ms)
+	// One history in three reads through a storage that serves every block out of ONE buffer it owns and reuses
+	// for the next read (a *bytes.Buffer, which offers Bytes()): whatever the storage does with its own memory
+	// after a load has returned must not show in the node that load returned (round-4 seed C11-11: Fill handing
+	// such a reader straight to the codec, whose raw form keeps the bytes it is given).
+	if rng.Chance(1, 3) {
+		var shared bytes.Buffer
+		lsys.StorageReadOpener = func(lc linking.LinkContext, l datamodel.Link) (io.Reader, error) {
+			b, err := ms.Get(lc.Ctx, l.Binary())
+			if err != nil {
+				return nil, err
+			}
+			shared.Reset()
+			shared.Write(b)
+			return &shared, nil
+		}
+		c.Count("histories_over_buffer_reusing_storage", 1)
+	}
 	storeBlock := func(codec uint64, v model.Val) (datamodel.Link, error) {
 		return lsys.Store(linking.LinkContext{}, cidlink.LinkPrototype{Prefix: cid.Prefix{Version: 1, Codec: codec, MhType: 0x12, MhLength: -1}}, fnode.New(v))
 	}
